@@ -302,3 +302,13 @@ def repair_case(case, ctx):
         spec["edges"] = keep
         case.setdefault("_repaired", []).append("F-01c")
     return case
+
+
+@predicate("F-03a")
+def explicit_time_under_fixed_step_solver(case):
+    """an equation that mentions the time variable t, simulated with a fixed-step solver (euler/heun): t is the step
+    counter there, not the time"""
+    from . import expr as E
+    if case.get("cfg", {}).get("solver") not in ("euler", "heun"):
+        return False
+    return any(E.uses_time(a) for a in _all_asts(case))
